@@ -161,3 +161,24 @@ package workflow
 //@   on aftercall (*SafeState).get : cur = result
 //@   on call .updateState : assert merged && arg0 == cur && !forwarded ; forwarded = true
 //@   ensures r != nil ==> merged
+
+// ---------------------------------------------------------------------------------------------------------
+// C14: what a role sees for a variable: user vars over vars over defaults, each kind flattened child-over-parent first
+// (gera.flatHas / gera.flatVal are the recursive definitions proved for common/gera: nearest definition wins, an empty
+// value is a definition).
+//@ func (r *roleBase) ConsolidatedVarStack() (varStack map[string]string, err error)
+//@   property C14
+//@   modifies nothing
+//@   ensures err == nil ==> forall k string :: old(gera.flatHas(iface(r.UserVars), k) || gera.flatHas(iface(r.Vars), k) || gera.flatHas(iface(r.Defaults), k)) ==> (k in varStack)
+//@   ensures err == nil ==> forall k string :: (k in varStack) ==> old(gera.flatHas(iface(r.UserVars), k) || gera.flatHas(iface(r.Vars), k) || gera.flatHas(iface(r.Defaults), k))
+//@   ensures err == nil ==> forall k string :: (k in varStack) ==> varStack[k] == old(if gera.flatHas(iface(r.UserVars), k) then gera.flatVal(iface(r.UserVars), k) else if gera.flatHas(iface(r.Vars), k) then gera.flatVal(iface(r.Vars), k) else gera.flatVal(iface(r.Defaults), k))
+
+//@ func (r *roleBase) ConsolidatedVarMaps() (defaults map[string]string, vars map[string]string, userVars map[string]string, err error)
+//@   property C14
+//@   modifies nothing
+//@   ensures err == nil ==> forall k string :: (k in defaults) == old(gera.flatHas(iface(r.Defaults), k))
+//@   ensures err == nil ==> forall k string :: (k in vars) == old(gera.flatHas(iface(r.Vars), k))
+//@   ensures err == nil ==> forall k string :: (k in userVars) == old(gera.flatHas(iface(r.UserVars), k))
+//@   ensures err == nil ==> forall k string :: (k in defaults) ==> defaults[k] == old(gera.flatVal(iface(r.Defaults), k))
+//@   ensures err == nil ==> forall k string :: (k in vars) ==> vars[k] == old(gera.flatVal(iface(r.Vars), k))
+//@   ensures err == nil ==> forall k string :: (k in userVars) ==> userVars[k] == old(gera.flatVal(iface(r.UserVars), k))
